@@ -1340,6 +1340,7 @@ class Explorer(object):
         (z3's Solver.assertions() returns a preprocessed set that may have eliminated variables)"""
         self.asserted.append(e)
         self.solver.add(e)
+        self.model = None          # a cached model need not satisfy the new conjunct
 
     def fresh_name(self, base):
         self.fresh += 1
@@ -1379,6 +1380,7 @@ class Explorer(object):
         if r == z3.sat:
             self.pending.append(self.prefix[:i] + [not v])
             self._assert(cond if v else z3.Not(cond))
+            self.model = m         # m satisfies the side we follow
         # every non-trivial, non-memoised branch call records one decision so that replay stays aligned
         self.prefix.append(v)
         self.pos += 1
@@ -1419,6 +1421,7 @@ class Explorer(object):
             if r == z3.sat:
                 self.pending.append(self.prefix[:i] + [('v', v, False)])
                 self._assert(c)
+                self.model = m
             self.prefix.append(('v', v, True))
             self.pos += 1
             n += 1
@@ -1461,12 +1464,14 @@ class Explorer(object):
         if c:
             st.discharged += 1
             return True
+        self.model = None          # re-establish feasibility of the path before reporting (PathAbort if infeasible)
         self._record_cex(label, self.get_model(), detail)
         return False
 
     def fail(self, label, detail=None):
         self.stats.obligations += 1
         self.stats.labels[label] = self.stats.labels.get(label, 0) + 1
+        self.model = None
         self._record_cex(label, self.get_model(), detail)
 
     def _model_inputs(self, m):
